@@ -87,6 +87,11 @@ def variants(msg):
     # something in front of the STX (a stray line terminator, a control character, text, a frame that lost its STX)
     for junk in (b"\n", b"\r\n", b"\x05", b"\x06", b"\x00", b"xx", b" ", msg[1:end]):
         yield ("junk-before-stx", junk + msg, None)
+    # frames without any text: only the frame number and a terminator (complete, wrong or missing), checksum matching
+    for c2 in (content[:1] + b"\x03", content[:1] + b"\r\x03", content[:1] + b"\x17", content[:1] + b"\r", content[:1],
+               b"\x03", b"\r\x03", b"\x17", content[:1] + b"\r\r\x03", content[:1] + b"\x03\x03"):
+        yield ("no-text", b"\x02" + c2 + gens.checksum(c2) + msg[end:], None)
+        yield ("no-text", b"\x02" + c2 + gens.checksum(c2), None)
     cs = msg[end - 2:end]
     yield ("case-lower", msg[:end - 2] + cs.lower() + msg[end:], False)
     yield ("case-mixed", msg[:end - 2] + cs[:1].lower() + cs[1:] + msg[end:], False)
